@@ -19,7 +19,9 @@ class QueueWorld:
         self.ctl = ctl
         self.dead = False
         self.loop = fresh_loop()
-        self.q = Queue()
+        self.q = Queue(maxsize=scen.get("maxsize", 0))
+        self.producers = {}
+        self.put_started = 0
         self.viol = []
         self.puts = 0
         self.taken = 0
@@ -92,7 +94,8 @@ class QueueWorld:
 
     def __canon__(self):
         return (
-            self.puts, self.taken, self.exits, sorted(self.gates.items()), tuple(self.pcs), len(self.viol),
+            self.puts, self.put_started, sorted(self.producers.items()),
+            self.taken, self.exits, sorted(self.gates.items()), tuple(self.pcs), len(self.viol),
             self.join_called, self.Z, self.join_task, sorted(self.in_block),
             sorted((c, t) for c, t in self.tasks.items()), tuple(self.items_seen),
         )
@@ -126,6 +129,10 @@ class QueueWorld:
     def enabled(self, op):
         if op[0] == "cancel":
             return not self.tasks[op[1]].done()
+        if op[0] == "put":
+            return not self.q.full()
+        if op[0] == "cancel_prod":
+            return op[1] in self.producers and not self.producers[op[1]].done()
         return True
 
     def describe(self, act):
@@ -146,8 +153,23 @@ class QueueWorld:
         op = self.scen["actors"][i][self.pcs[i]]
         self.pcs[i] += 1
         if op[0] == "put":
-            self.q.put_nowait(("item", self.puts))
+            self.q.put_nowait(("item", self.put_started))
+            self.put_started += 1
             self.puts += 1
+        elif op[0] == "aput":
+            # a producer that may have to wait for room in a bounded queue: the item counts as put when put() returns
+            n = self.put_started
+            self.put_started += 1
+
+            async def produce(n=n):
+                await self.q.put(("item", n))
+                self.puts += 1
+
+            t = asyncio.Task(produce(), loop=self.loop, eager_start=True, name=f"prod{n}")
+            self.loop.tasks.append(t)
+            self.producers[n] = t
+        elif op[0] == "cancel_prod":
+            self.producers[op[1]].cancel()
         elif op[0] == "cancel":
             self.tasks[op[1]].cancel()
         elif op[0] == "join":
